@@ -1,4 +1,6 @@
 From MV Require Import Lib.ExtractBase C19.Model.
 From Coq Require Import ExtrOcamlBasic.
 Extraction Language OCaml.
-Extraction "c19_model" force_types init init_fast check update check_and_update check_and_force_update step run.
+Extraction "c19_model" force_types init init_fast check update check_and_update check_and_force_update step run
+  read_clock ts_of interval_ns ns_init ns_curr_elapsed ns_check_and_update ns_check_and_force_update
+  fast_init fast_curr_elapsed fast_check_and_update fast_check_and_force_update.
